@@ -222,6 +222,18 @@ func (h *H) do(o *op, b *sim.Browser, req sim.Req) *step {
 	if s.R.OK {
 		h.okCount++
 	}
+	// what was answered stays answered: a response handed back earlier (its Set-Cookie, its Location) must not be
+	// rewritten by a later check - gRPC serialises it while other checks already run, so the id, the login URL or the
+	// logout answer one client receives would be the one made for another
+	if h.w.Svc == nil {
+		for _, prev := range h.steps {
+			if prev != s {
+				if d := prev.R.ChangedSinceReturn(); d != "" {
+					h.c.Violation("issued-answer-rewritten-by-later-check", "the answer of step #%d changed while step #%d was processed: %s", prev.N, s.N, d)
+				}
+			}
+		}
+	}
 	for _, m := range h.mons {
 		m.after(h, s)
 	}
